@@ -17,6 +17,7 @@ Iterator objects (`i`, `j` < 8 slots; a slot holds a `list::iterator` or a `list
 * `IP i e` / `CP i e`   `it_i = iterator{&elem_e}` / `const_iterator{…}`   * `IN i` / `CN i`  `it_i = iterator{}` / `const_iterator{}`
 * `IC i j`  `it_i = it_j` (copy)       * `IX i`  drop the slot
 * `I+ i` `I- i`  `++it_i`, `--it_i`    * `Ip i` `Im i`  `it_i++`, `it_i--` (prints ` ret=<position of the returned iterator>`)
+* `IS i j`  `it_i.swap(it_j)` (same constness only; `i = j`: self-swap)
 * `I= i j`  prints ` eq=<it_i == it_j> ne=<it_i != it_j>` (same constness only)
 * `I* i`    prints ` deref=<element>` (`*it` and `it.operator->()` must agree)
 
@@ -233,8 +234,10 @@ def parseHoldOps (st : St) (t : List String) : Option (List Hold.Op) :=
   | ["SX", h] => do let h ← h.toNat?; guard (h < maxElems ∧ (own h).length = 1); pure [.release h 0]
   | ["HA", a, b] => do
     let a ← a.toNat?; let b ← b.toNat?
-    guard (a < maxElems ∧ b < maxElems ∧ a ≠ b ∧ (own b).length = 1); pure [.clear a, .transfer b 0 a]
-  | ["HW", a, b] => do let a ← a.toNat?; let b ← b.toNat?; guard (a < maxElems ∧ b < maxElems ∧ a ≠ b); pure [.swap a b]
+    guard (a < maxElems ∧ b < maxElems ∧ (own b).length = 1)
+    -- self-move-assignment of an `optional<unique_ptr>` leaves the connection alone
+    pure (if a = b then [] else [.clear a, .transfer b 0 a])
+  | ["HW", a, b] => do let a ← a.toNat?; let b ← b.toNat?; guard (a < maxElems ∧ b < maxElems); pure [.swap a b]
   | ["KP", c, h] => do
     let c ← c.toNat?; let h ← h.toNat?
     guard (c < maxConts ∧ h < maxElems ∧ (own h).length = 1); pure [.transfer h 0 (16 + c)]
@@ -293,6 +296,13 @@ def handleIter (st : St) (t : List String) : Option (Option (St × String)) :=
       | some i, some j => match getIt st.its j with
         | some s => ok (setIt st.its i s) ""
         | none => some none
+      | _, _ => some none
+    else if o = "IS" then
+      match slot i, slot k with
+      | some i, some j => match getIt st.its i, getIt st.its j with
+        | some a, some b =>
+          if a.isConst == b.isConst then ok (setIt (setIt st.its i b) j a) "" else some none
+        | _, _ => some none
       | _, _ => some none
     else if o = "I=" then
       match slot i, slot k with
